@@ -34,6 +34,7 @@ PROPS["C16"] = dict(l1_ops=[], l1_algo=["avg_bi", "avg_w", "avg_fl", "avg_fr"], 
 PROPS["C17"] = dict(l1_ops=[], l1_algo=["decasteljau"], l2_algo="C17", box=True,
                     n_l1=(60, 600), n_l2=(10, 150))
 PROPS["C18"] = dict(l1_ops=[], l1_approx=True, l2_algo="C18", n_l1=(200, 4000), n_l2=(60, 1500))
+PROPS["C13"] = dict(l1_ops=[], l1_ctor=True, l2_algo="C13", n_l1=(1200, 20000), n_l2=(60, 1500))
 PROPS["C07"] = dict(l1_ops=["hat", "vee", "generator", "innerWeights", "bracket", "inner", "sqwnorm", "wnorm"],
                     l2="C07", n_l1=(400, 6000), n_l2=(80, 2000))
 
@@ -127,6 +128,8 @@ def run_property(pid, thorough, seed, res):
                 reqs += l1.requests_for(r, g, max(1, n1 // (2 * len(cfg["l1_ops"]))), dbg,
                                         storages=("o", "m", "c"), ops=cfg["l1_ops"],
                                         norm=("valid" if dbg else "any"))
+            if cfg.get("l1_ctor"):
+                reqs += l1.ctor_requests(r, g, max(1, n1 // 40), dbg)
             if cfg.get("l1_approx"):
                 reqs += l1.approx_requests(builds[dbg], r, g, max(1, n1 // 16), dbg)
             if cfg.get("l1_algo"):
